@@ -26,12 +26,12 @@ using sim::json::Value;
 namespace
 {
     const size_t PAGE = 4096;
-    const size_t DATA = 2 * PAGE;
+    const size_t DATA = 3 * PAGE; // D0, H, D1: the middle page is ordinary data except during a HOLE-placed gather/scatter
 
     // ------------------------------------------------------------------ SimMem
     struct SimMem
     {
-        unsigned char* base = nullptr; // [G0][D0][D1][G1]
+        unsigned char* base = nullptr; // [G0][D0][H][D1][G1]
         unsigned char* data = nullptr; // D0
         unsigned char shadow[DATA]; // reference model of the data pages
         bool guard_ro = false;
@@ -40,12 +40,12 @@ namespace
             if (base)
                 return;
             void* hint = (void*)0x5b0000000000ull;
-            void* p = mmap(hint, 4 * PAGE, PROT_READ | PROT_WRITE, MAP_PRIVATE | MAP_ANONYMOUS | MAP_FIXED_NOREPLACE, -1, 0);
+            void* p = mmap(hint, 5 * PAGE, PROT_READ | PROT_WRITE, MAP_PRIVATE | MAP_ANONYMOUS | MAP_FIXED_NOREPLACE, -1, 0);
             if (p == MAP_FAILED || p != hint)
             {
                 if (p != MAP_FAILED)
-                    munmap(p, 4 * PAGE);
-                p = mmap(nullptr, 4 * PAGE, PROT_READ | PROT_WRITE, MAP_PRIVATE | MAP_ANONYMOUS, -1, 0);
+                    munmap(p, 5 * PAGE);
+                p = mmap(nullptr, 5 * PAGE, PROT_READ | PROT_WRITE, MAP_PRIVATE | MAP_ANONYMOUS, -1, 0);
                 if (p == MAP_FAILED)
                     throw std::runtime_error("SimMem: cannot map arena");
             }
@@ -57,9 +57,10 @@ namespace
             init();
             guard_ro = ro;
             mprotect(base, PAGE, PROT_READ | PROT_WRITE);
-            mprotect(base + 3 * PAGE, PAGE, PROT_READ | PROT_WRITE);
+            mprotect(base + 4 * PAGE, PAGE, PROT_READ | PROT_WRITE);
+            mprotect(base + 2 * PAGE, PAGE, PROT_READ | PROT_WRITE);
             memset(base, 0xc7, PAGE);
-            memset(base + 3 * PAGE, 0xc7, PAGE);
+            memset(base + 4 * PAGE, 0xc7, PAGE);
             sim::Rng r(fill_seed);
             for (size_t i = 0; i < DATA; i += 8)
             {
@@ -69,8 +70,9 @@ namespace
             memcpy(shadow, data, DATA);
             int prot = ro ? PROT_READ : PROT_NONE;
             mprotect(base, PAGE, prot);
-            mprotect(base + 3 * PAGE, PAGE, prot);
+            mprotect(base + 4 * PAGE, PAGE, prot);
         }
+        void hole(bool on) { mprotect(base + 2 * PAGE, PAGE, on ? PROT_NONE : (PROT_READ | PROT_WRITE)); }
     };
 
     SimMem g_mem;
@@ -186,10 +188,11 @@ namespace
         PL_R, // window end == first byte of the upper guard page
         PL_L, // window start == first byte of the lower data page (right after the lower guard)
         PL_MID, // window starts `off` elements after a cache-line start (off may make it straddle a line)
-        PL_PAGE, // window straddles the boundary between the two data pages, `off` elements before it
+        PL_PAGE, // window straddles the boundary between the first two data pages, `off` elements before it
+        PL_HOLE, // gather/scatter only: the indexed elements lie on both sides of an unmapped page; nothing in between may be touched
         N_PLACE
     };
-    const char* PLNAME[N_PLACE] = { "R", "L", "MID", "PAGE" };
+    const char* PLNAME[N_PLACE] = { "R", "L", "MID", "PAGE", "HOLE" };
 
     struct Op
     {
@@ -209,15 +212,19 @@ namespace
 
     Counter c_ops("sim", "memory_ops"), c_runs("sim", "address_space_setups");
     Counter fc_none("fault_configured", "guard_pages_PROT_NONE"), fc_ro("fault_configured", "guard_pages_read_only"), fc_R("fault_configured", "window_flush_against_upper_guard"),
-        fc_L("fault_configured", "window_flush_against_lower_guard"), fc_mid("fault_configured", "window_at_line_offset"), fc_page("fault_configured", "window_straddles_page_boundary");
+        fc_L("fault_configured", "window_flush_against_lower_guard"), fc_mid("fault_configured", "window_at_line_offset"), fc_page("fault_configured", "window_straddles_page_boundary"),
+        fc_hole("fault_configured", "gather_scatter_across_unmapped_hole");
     Counter ff_trap("info", "mmu_fault_captured(only_on_violation)");
     Counter ff_R("fault_fired", "window_end_is_last_mapped_byte"), ff_L("fault_fired", "window_start_is_first_mapped_byte"), ff_line("fault_fired", "window_straddles_cache_line"),
-        ff_page("fault_fired", "window_straddles_page_boundary"), ff_ro("fault_fired", "neighbour_page_read_only(write_trap)"), ff_none("fault_fired", "neighbour_page_unmapped(read+write_trap)");
+        ff_page("fault_fired", "window_straddles_page_boundary"), ff_ro("fault_fired", "neighbour_page_read_only(write_trap)"), ff_none("fault_fired", "neighbour_page_unmapped(read+write_trap)"),
+        ff_hole("fault_fired", "indexed_elements_on_both_sides_of_unmapped_hole");
     Counter cl_load("clause", "load(register_bytes==window,arena_unchanged,no_fault)"), cl_store("clause", "store(arena==shadow_with_window_overwritten,no_fault)"),
         cl_bool("clause", "bool(mask_and_get_agree_with_bytes|bytes_are_0_or_1)"), cl_cplx("clause", "complex(deinterleave/interleave)"),
-        cl_gs("clause", "gather_scatter(exactly_indexed_elements)"), cl_pure("clause", "numbering(broadcast,ctor,get,insert)");
+        cl_gs("clause", "gather_scatter(exactly_indexed_elements)"), cl_pure("clause", "numbering(broadcast,ctor,get,insert)"),
+        cl_cvt("clause", "converting_load_store(footprint_is_lanes*sizeof(U),lane_i<->element_i)"), cl_cvtgs("clause", "converting_gather_scatter(exactly_indexed_elements)");
     Counter p_straddle_line("probe", "window_straddled_a_cache_line"), p_straddle_page("probe", "window_straddled_the_page_boundary"), p_touch_guard("probe", "window_touched_a_guard_edge"),
-        p_neg_idx("probe", "gather_scatter_with_negative_index"), p_aligned_form("probe", "aligned_form_executed"), p_unplaceable("probe", "aligned_bool_window_not_flush(gap_to_guard)");
+        p_neg_idx("probe", "gather_scatter_with_negative_index"), p_aligned_form("probe", "aligned_form_executed"), p_unplaceable("probe", "aligned_bool_window_not_flush(gap_to_guard)"),
+        p_hole_fallback("probe", "hole_placement_not_possible(1-byte_index_or_shrunk_indices)"), p_unsigned_idx("probe", "gather_scatter_with_unsigned_index_batch");
 
     sim::DistinctSet d_all("op_placement_tuples"), d_nontrivial("edge_or_straddle_tuples");
 
@@ -316,6 +323,15 @@ namespace
                 g_armed = 0;
                 throw std::runtime_error("C04 self-test: a same-value write into the read-only guard did not trap");
             }
+            g_mem.hole(true);
+            if (sigsetjmp(g_jb, 1) == 0)
+            {
+                g_armed = 1;
+                sink = *(volatile unsigned char*)(g_mem.data + PAGE); // first byte of the hole
+                g_armed = 0;
+                throw std::runtime_error("C04 self-test: a read inside the unmapped hole did not trap");
+            }
+            g_mem.hole(false);
             (void)sink;
             if (table.empty())
                 throw std::runtime_error("C04 self-test: no executable architecture");
@@ -332,9 +348,77 @@ namespace
             case K_CPLX_LOAD:
             case K_CPLX_STORE:
                 return (size_t)2 * e.lanes * e.elem;
+            case K_CVT_LOAD:
+            case K_CVT_STORE:
+                return (size_t)e.lanes * e.mem_elem;
             default:
                 return (size_t)e.lanes * e.elem;
             }
+        }
+        static bool is_gs(const OpEntry& e) { return e.kind == K_GATHER || e.kind == K_SCATTER || e.kind == K_CVT_GATHER || e.kind == K_CVT_SCATTER; }
+        static bool is_cvt(const OpEntry& e) { return e.kind >= K_CVT_LOAD && e.kind <= K_CVT_SCATTER; }
+        // small integers that every element type represents exactly: the currency of the converting forms
+        static void enc(const char* t, long v, unsigned char* dst)
+        {
+            switch (t[0])
+            {
+            case 'f':
+                if (t[1] == '3')
+                {
+                    float f = (float)v;
+                    memcpy(dst, &f, 4);
+                }
+                else
+                {
+                    double d = (double)v;
+                    memcpy(dst, &d, 8);
+                }
+                break;
+            default:
+            {
+                int bytes = atoi(t + 1) / 8;
+                int64_t x = v;
+                memcpy(dst, &x, (size_t)bytes); // little endian two's complement truncation
+            }
+            }
+        }
+        static long dec(const char* t, const unsigned char* src, bool& exact)
+        {
+            exact = true;
+            if (t[0] == 'f')
+            {
+                double d;
+                if (t[1] == '3')
+                {
+                    float f;
+                    memcpy(&f, src, 4);
+                    d = f;
+                }
+                else
+                    memcpy(&d, src, 8);
+                if (!(d >= -1e6 && d <= 1e6) || d != (double)(long)d)
+                {
+                    exact = false;
+                    return 0;
+                }
+                return (long)d;
+            }
+            int bytes = atoi(t + 1) / 8;
+            if (t[0] == 'u')
+            {
+                uint64_t x = 0;
+                memcpy(&x, src, (size_t)bytes);
+                return (long)x;
+            }
+            int64_t x = 0;
+            memcpy(&x, src, (size_t)bytes);
+            int sh = 64 - 8 * bytes;
+            return (long)((int64_t)((uint64_t)x << sh) >> sh);
+        }
+        static long small_value(const OpEntry& e, uint64_t r)
+        {
+            bool any_unsigned = e.tname[0] == 'u' || e.mem_tname[0] == 'u';
+            return any_unsigned ? (long)(r % 101) : (long)(r % 101) - 50;
         }
         static size_t elem_bytes(const OpEntry& e)
         {
@@ -346,6 +430,11 @@ namespace
             case K_CPLX_LOAD:
             case K_CPLX_STORE:
                 return (size_t)2 * e.elem;
+            case K_CVT_LOAD:
+            case K_CVT_STORE:
+            case K_CVT_GATHER:
+            case K_CVT_SCATTER:
+                return (size_t)e.mem_elem;
             default:
                 return (size_t)e.elem;
             }
@@ -372,6 +461,10 @@ namespace
                     o = (DATA - bytes) - ((DATA - bytes) % al);
                 return o;
             }
+            case PL_HOLE: // not a gather/scatter, or no room for the hole: same as R
+                o = DATA - bytes;
+                o -= o % al;
+                return o;
             default: // PL_PAGE
             {
                 size_t back = ((size_t)off * eb) % (bytes ? bytes : 1);
@@ -385,12 +478,74 @@ namespace
         }
 
         // ------------------------------------------------------------------ generation
+        // largest usable index: limited by the index type (same width as T; the signed maximum also suits the unsigned batches) and by one page of span
+        static int64_t idx_max(const OpEntry& e, size_t eb)
+        {
+            int64_t tmax = e.elem >= 8 ? (int64_t)1 << 40 : ((int64_t)1 << (8 * e.elem - 1)) - 1;
+            return std::min<int64_t>(tmax, (int64_t)(PAGE / eb) - 1);
+        }
+        // HOLE placement: element 0..nb-1 end flush at the hole, elements hb..hb+nb-1 start right after it
+        static bool hole_possible(const OpEntry& e, size_t eb)
+        {
+            int64_t tmax = e.elem >= 8 ? (int64_t)1 << 40 : ((int64_t)1 << (8 * e.elem - 1)) - 1;
+            return e.lanes >= 2 && (int64_t)(2 * e.lanes + PAGE / eb) - 1 <= tmax;
+        }
+        static bool hole_valid(const OpEntry& e, size_t eb, const std::vector<int64_t>& idx)
+        {
+            if (!hole_possible(e, eb) || idx.empty())
+                return false;
+            const int64_t nb = e.lanes, hb = nb + (int64_t)(PAGE / eb);
+            bool below = false, above = false;
+            for (int64_t v : idx)
+            {
+                if (v >= 0 && v < nb)
+                    below = true;
+                else if (v >= hb && v < hb + nb)
+                    above = true;
+                else
+                    return false;
+            }
+            return below && above;
+        }
+
         void gen_idx(sim::Rng& rng, const OpEntry& e, Op& op)
         {
             const int L = e.lanes;
-            const int64_t imax = e.elem == 1 ? 127 : (int64_t)(PAGE / e.elem) - 1; // span at most one page
+            const size_t eb = elem_bytes(e);
+            const int64_t imax = idx_max(e, eb);
+            const bool scatter = e.kind == K_SCATTER || e.kind == K_CVT_SCATTER;
             op.idx.resize((size_t)L);
-            switch (rng.below(6))
+            if (op.place == PL_HOLE && hole_possible(e, eb))
+            {
+                op.idx_family = "hole";
+                const int64_t nb = L, hb = nb + (int64_t)(PAGE / eb);
+                std::vector<int64_t> cand;
+                for (int64_t k = 0; k < nb; ++k)
+                {
+                    cand.push_back(k);
+                    cand.push_back(hb + k);
+                }
+                for (size_t k = cand.size(); k > 1; --k)
+                    std::swap(cand[k - 1], cand[rng.below(k)]);
+                // the two elements that touch the hole are always indexed
+                std::vector<int64_t> pick { nb - 1, hb };
+                for (int64_t v : cand)
+                    if ((int)pick.size() < L && v != nb - 1 && v != hb)
+                        pick.push_back(v);
+                for (size_t k = pick.size(); k > 1; --k)
+                    std::swap(pick[k - 1], pick[rng.below(k)]);
+                for (int i = 0; i < L; ++i)
+                    op.idx[(size_t)i] = pick[(size_t)i];
+                if (!scatter && rng.coin()) // gathers may repeat an element
+                    op.idx[rng.below((uint64_t)L)] = op.idx[rng.below((uint64_t)L)];
+                if (!hole_valid(e, eb, op.idx))
+                    op.idx[0] = nb - 1, op.idx[(size_t)L - 1] = hb;
+                return;
+            }
+            unsigned fam = (unsigned)rng.below(6);
+            if (fam == 3 && e.idx_unsigned)
+                fam = 5;
+            switch (fam)
             {
             case 0:
                 op.idx_family = "identity";
@@ -413,8 +568,8 @@ namespace
             case 3:
             {
                 op.idx_family = "negative";
-                int64_t lo = e.elem == 1 ? -128 : -(imax / 2);
-                int64_t hi = e.elem == 1 ? 127 : imax / 2;
+                int64_t lo = -(imax / 2) - 1;
+                int64_t hi = imax / 2;
                 for (int i = 0; i < L; ++i)
                     op.idx[(size_t)i] = rng.range(lo, hi);
                 // make sure at least one is negative
@@ -434,7 +589,7 @@ namespace
                     op.idx[(size_t)i] = (int64_t)rng.below((uint64_t)imax + 1);
                 break;
             }
-            if (e.kind == K_SCATTER)
+            if (scatter)
             {
                 // distinct indices: the property does not fix the winner of colliding lanes
                 for (int i = 0; i < L; ++i)
@@ -448,8 +603,8 @@ namespace
                         int64_t lo = 0, hi = imax;
                         if (op.idx_family == "negative")
                         {
-                            lo = e.elem == 1 ? -128 : -(imax / 2);
-                            hi = e.elem == 1 ? 127 : imax / 2;
+                            lo = -(imax / 2) - 1;
+                            hi = imax / 2;
                         }
                         op.idx[(size_t)i] = op.idx[(size_t)i] + 1 > hi ? lo : op.idx[(size_t)i] + 1;
                     }
@@ -478,7 +633,8 @@ namespace
                 for (auto& pr : pairs)
                     if (pr.first == table[i].arch && pr.second == table[i].tname)
                         pool.push_back(i);
-            unsigned w_place[N_PLACE] = { 2 + (unsigned)rng.below(4), 1 + (unsigned)rng.below(4), (unsigned)rng.below(4), (unsigned)rng.below(4) };
+            unsigned w_place[N_PLACE] = { 2 + (unsigned)rng.below(4), 1 + (unsigned)rng.below(4), (unsigned)rng.below(4), (unsigned)rng.below(4), 0 };
+            const unsigned w_hole = 1 + (unsigned)rng.below(3); // of 4: how often a gather/scatter is placed across the hole
             while (plan.ops.size() < n)
             {
                 Op op;
@@ -491,8 +647,12 @@ namespace
                                                                                  : PL_PAGE;
                 op.off = (uint32_t)rng.below(512);
                 op.reg_seed = rng.next();
-                if (e.kind == K_GATHER || e.kind == K_SCATTER)
+                if (is_gs(e))
+                {
+                    if (rng.below(4) < w_hole)
+                        op.place = PL_HOLE;
                     gen_idx(rng, e, op);
+                }
                 plan.ops.push_back(op);
             }
             return plan;
@@ -528,8 +688,9 @@ namespace
                 size_t wbytes = window_bytes(e);
                 size_t woff; // offset of the accessed window in the data pages
                 int64_t lo = 0, hi = 0;
-                const bool gs = e.kind == K_GATHER || e.kind == K_SCATTER;
+                const bool gs = is_gs(e);
                 const bool pure = e.kind >= K_BROADCAST;
+                bool hole = false;
                 if (gs)
                 {
                     lo = hi = op.idx[0];
@@ -541,12 +702,28 @@ namespace
                     wbytes = (size_t)(hi - lo + 1) * eb;
                     if (lo < 0)
                         ++p_neg_idx;
+                    if (e.idx_unsigned)
+                        ++p_unsigned_idx;
+                    if (op.place == PL_HOLE)
+                    {
+                        hole = hole_valid(e, eb, op.idx);
+                        if (!hole)
+                            ++p_hole_fallback;
+                    }
                 }
-                woff = place_offset(op.place, op.off, wbytes, (size_t)std::max(1, e.align_req), eb);
+                if (hole)
+                    woff = PAGE - (size_t)e.lanes * eb + (size_t)lo * eb; // element 0 sits e.lanes elements before the hole
+                else
+                    woff = place_offset(op.place, op.off, wbytes, (size_t)std::max(1, e.align_req), eb);
                 unsigned char* wptr = g_mem.data + woff;
                 unsigned char* ptr = gs ? wptr - lo * (int64_t)eb : wptr; // gather base: element lo sits at the window start
                 switch (op.place)
                 {
+                case PL_HOLE:
+                    ++fc_hole;
+                    if (hole)
+                        ++ff_hole;
+                    break;
                 case PL_R:
                     ++fc_R;
                     break;
@@ -562,7 +739,7 @@ namespace
                 }
                 bool touches_edge = (woff == 0) || (woff + wbytes == DATA);
                 bool straddle_line = (woff / 64) != ((woff + wbytes - 1) / 64);
-                bool straddle_page = woff < PAGE && woff + wbytes > PAGE;
+                bool straddle_page = woff / PAGE != (woff + wbytes - 1) / PAGE;
                 if (!pure)
                 {
                     if (woff + wbytes == DATA)
@@ -587,7 +764,7 @@ namespace
                 }
                 uint64_t tuple = sim::hash_u64(sim::hash_u64(op.entry % table.size(), (uint64_t)op.place), sim::hash_u64(woff % 64, plan.guard_ro));
                 d_all.add(tuple);
-                if (!pure && (touches_edge || straddle_line || straddle_page))
+                if (!pure && (touches_edge || straddle_line || straddle_page || hole))
                     d_nontrivial.add(tuple);
 
                 // inputs
@@ -611,6 +788,18 @@ namespace
                     for (int i = 0; i < e.lanes; ++i)
                         g_mem.shadow[woff + (size_t)i] = wptr[i] = (bits >> i) & 1;
                 }
+                if (e.kind == K_CVT_LOAD || e.kind == K_CVT_GATHER)
+                {
+                    // memory holds small integers of type U (arena and model alike)
+                    for (size_t k = 0; k < wbytes / eb; ++k)
+                    {
+                        enc(e.mem_tname, small_value(e, rr.next()), wptr + k * eb);
+                        memcpy(g_mem.shadow + woff + k * eb, wptr + k * eb, eb);
+                    }
+                }
+                if (e.kind == K_CVT_STORE || e.kind == K_CVT_SCATTER)
+                    for (int i = 0; i < e.lanes; ++i)
+                        enc(e.tname, small_value(e, rr.next()), reg_in + (size_t)i * e.elem);
                 Ctx c;
                 c.p = ptr;
                 c.reg_in = reg_in;
@@ -621,6 +810,8 @@ namespace
                 c.mask_in = mask_in;
 
                 bool faulted = false;
+                if (hole)
+                    g_mem.hole(true);
                 if (sigsetjmp(g_jb, 1) == 0)
                 {
                     g_armed = 1;
@@ -629,6 +820,8 @@ namespace
                 }
                 else
                     faulted = true;
+                if (hole)
+                    g_mem.hole(false);
 
                 const std::string where = sim::fmt("%s %s<%s,%s> placed %s+%u (window D0+%zu, %zu bytes, guards %s)", e.form, "batch", e.tname, e.arch, PLNAME[op.place], op.off, woff, wbytes,
                                                    plan.guard_ro ? "read-only" : "PROT_NONE");
@@ -639,8 +832,10 @@ namespace
                     bool is_write = (g_fault.err >> 1) & 1;
                     long rel = (long)a - (long)(uintptr_t)wptr;
                     std::string cls;
-                    if (a < (uintptr_t)g_mem.base || a >= (uintptr_t)g_mem.base + 4 * PAGE)
+                    if (a < (uintptr_t)g_mem.base || a >= (uintptr_t)g_mem.base + 5 * PAGE)
                         cls = sim::fmt("C04/misaligned-trap(%s)", e.form); // #GP: si_addr is 0 for an alignment fault of an aligned instruction
+                    else if (hole && a >= (uintptr_t)g_mem.data + PAGE && a < (uintptr_t)g_mem.data + 2 * PAGE)
+                        cls = sim::fmt("C04/%s-outside(%s,between-indexed-elements)", is_write ? "write" : "read", e.form);
                     else if (rel < 0)
                         cls = sim::fmt("C04/%s-outside(%s,before)", is_write ? "write" : "read", e.form);
                     else
@@ -724,6 +919,33 @@ namespace
                     for (int i = 0; i < e.lanes; ++i)
                         memcpy(g_mem.shadow + woff + (size_t)(op.idx[(size_t)i] - lo) * eb, reg_in + (size_t)i * e.elem, (size_t)e.elem);
                     break;
+                case K_CVT_LOAD:
+                case K_CVT_GATHER:
+                    e.kind == K_CVT_LOAD ? ++cl_cvt : ++cl_cvtgs;
+                    for (int i = 0; i < e.lanes; ++i)
+                    {
+                        size_t k = e.kind == K_CVT_LOAD ? (size_t)i : (size_t)(op.idx[(size_t)i] - lo);
+                        bool ex1, ex2;
+                        long got = dec(e.tname, reg_out + (size_t)i * e.elem, ex1);
+                        long want = dec(e.mem_tname, g_mem.shadow + woff + k * eb, ex2);
+                        if (!ex1 || !ex2 || got != want)
+                        {
+                            out.violate(sim::fmt("C04/lane-mismatch(%s)", e.form), sim::fmt("%s: lane %d holds %s (%s), memory element %zu is %ld (%s)", where.c_str(), i,
+                                                                                              hexdump(reg_out + (size_t)i * e.elem, (size_t)e.elem).c_str(), e.tname, k, want, e.mem_tname));
+                            break;
+                        }
+                    }
+                    break;
+                case K_CVT_STORE:
+                case K_CVT_SCATTER:
+                    e.kind == K_CVT_STORE ? ++cl_cvt : ++cl_cvtgs;
+                    for (int i = 0; i < e.lanes; ++i)
+                    {
+                        size_t k = e.kind == K_CVT_STORE ? (size_t)i : (size_t)(op.idx[(size_t)i] - lo);
+                        bool ex;
+                        enc(e.mem_tname, dec(e.tname, reg_in + (size_t)i * e.elem, ex), g_mem.shadow + woff + k * eb);
+                    }
+                    break;
                 case K_BROADCAST:
                     ++cl_pure;
                     for (int i = 0; i < e.lanes; ++i)
@@ -767,7 +989,7 @@ namespace
                     while (g_mem.data[i] == g_mem.shadow[i])
                         ++i;
                     bool inside = i >= woff && i < woff + wbytes;
-                    bool is_store = e.kind == K_STORE || e.kind == K_BOOL_STORE || e.kind == K_CPLX_STORE || e.kind == K_SCATTER;
+                    bool is_store = e.kind == K_STORE || e.kind == K_BOOL_STORE || e.kind == K_CPLX_STORE || e.kind == K_SCATTER || e.kind == K_CVT_STORE || e.kind == K_CVT_SCATTER;
                     std::string cls;
                     if (inside && is_store)
                         cls = e.kind == K_BOOL_STORE && g_mem.data[i] > 1 ? sim::fmt("C04/bool-encoding(%s)", e.form) : sim::fmt("C04/missing-write(%s)", e.form);
@@ -925,7 +1147,7 @@ namespace
                                 bool used = false;
                                 for (size_t m = 0; m < op.idx.size(); ++m)
                                     used |= m != k && op.idx[m] == (int64_t)k;
-                                if (used && e.kind == K_SCATTER)
+                                if (used && (e.kind == K_SCATTER || e.kind == K_CVT_SCATTER))
                                     continue;
                                 Plan q2 = p;
                                 q2.ops[i].idx[k] = (int64_t)k;
